@@ -31,7 +31,18 @@ Example sites_today_covered :
       "x/bridge/keeper:Keeper.PowerDiff"; "x/oracle/keeper:Keeper.AllocateRewards";
       "x/oracle/keeper:Keeper.WeightedMode" ]%string
     [ "crypto/rand.Read:x/oracle/utils:Salt"; "go:app:New"; "time.Now:lib/time:TimeProviderImpl.Now";
-      "time.Now:x/mint:BeginBlocker" ]%string) = [].
+      "time.Now:x/mint:BeginBlocker" ]%string
+    [ "field:app:App.DaemonHealthMonitor (pointer to HealthMonitor)"; "field:app:App.PriceFeedClient (pointer to Client)";
+      "field:app:App.ReporterClient (pointer to Client)"; "field:app:App.Server (pointer to Server)";
+      "field:app:App.TokenBridgeClient (pointer to Client)";
+      "field:app:App.keys (map)"; "field:app:App.memKeys (map)"; "field:app:App.tkeys (map)";
+      "field:daemons/server/types/pricefeed:ExchangeToPrice.exchangeToPriceTimestamp (map)";
+      "field:daemons/server/types/pricefeed:MarketToExchangePrices.Mutex (sync)";
+      "field:daemons/server/types/pricefeed:MarketToExchangePrices.marketToExchangePrices (map)";
+      "field:x/bridge:BridgeInputs.Config (pointer to Module)"; "field:x/dispute:DisputeInputs.Config (pointer to Module)";
+      "field:x/mint:MintInputs.Config (pointer to Module)"; "field:x/oracle:OracleInputs.Config (pointer to Module)";
+      "field:x/registry/module:RegistryInputs.Config (pointer to Module)"; "field:x/reporter/module:ModuleInputs.Config (pointer to Module)";
+      "var:app:maccPerms (map)"; "var:lib:bigPow10Memo (map)" ]%string) = [].
 Proof. vm_compute. reflexivity. Qed.
 
 (* a check that passes means the repeated executions agreed *)
@@ -42,4 +53,29 @@ Proof.
   apply Nat.leb_le in H. destruct impls as [|x [|y t]]; cbn in H; try lia; intros a b Ha Hb.
   - destruct Ha.
   - destruct Ha as [<-|[]]. destruct Hb as [<-|[]]. reflexivity.
+Qed.
+
+
+(* ---- node-local state ------------------------------------------------------------------------------------- *)
+(* a handler whose store and output do not depend on what the node keeps in memory gives every node that holds the
+   same store the same stores and outputs for every sequence of blocks, whatever each node has in memory (a node
+   that ran from genesis, one that restarted, one that state-synced) *)
+Theorem local_free_nodes_agree {L S B O : Type} (h : L -> S -> B -> L * S * O) :
+  local_free h -> forall bs l l' s, run_node h l s bs = run_node h l' s bs.
+Proof.
+  intros Hf bs. induction bs as [|b t IH]; intros l l' s; [reflexivity|].
+  cbn [run_node]. destruct (Hf l l' s b) as [Hs Ho].
+  destruct (h l s b) as [[l1 s1] o1]. destruct (h l' s b) as [[l2 s2] o2]. cbn [fst snd] in Hs, Ho. subst s2 o2.
+  rewrite (IH l1 l2 s1). reflexivity.
+Qed.
+
+(* ... and the cached read is not of that kind: after the rolled-back write a node that kept running outputs the
+   cached 1, a node restarted on the same store outputs the stored 0 *)
+Theorem cached_handler_nodes_disagree :
+  ~ local_free cached_handler /\
+  run_node cached_handler (Some 1) 0 [false] <> run_node cached_handler None 0 [false].
+Proof.
+  split.
+  - intros H. destruct (H (Some 1) None 0 false) as [_ Ho]. cbn in Ho. discriminate.
+  - cbn. discriminate.
 Qed.
